@@ -402,7 +402,7 @@ func c11A2Options(r *core.R) {
 		it := c11NewInterp(apk)
 		outs, fr := it.run(fi, nil)
 		var bad, unk []string
-		nSet := 0
+		nSet, nRefused := 0, 0
 		pos := fi.Decl.Pos()
 		for _, o := range outs {
 			if o.ctl != c11Return || len(o.res) != 1 || o.res[0].k != "funclit" {
@@ -443,8 +443,12 @@ func c11A2Options(r *core.R) {
 					unk = append(unk, strings.Join(lo.st.notes, "; "))
 					continue
 				}
-				if lo.ctl != c11Return || len(lo.res) != 1 || lo.res[0].k != "nil" {
-					bad = append(bad, "the option can return a non-nil error / no value")
+				// An argument that is out of the option's domain (a negative duration) may be refused: the path
+				// that has decided `arg < 0` may leave the field alone and/or return an error. Every other value,
+				// the zero value included, must be applied.
+				refused := lo.st.truth(c11Bin(token.LSS, arg, c11Int(0))) == c11T
+				if lo.ctl != c11Return || len(lo.res) != 1 || (lo.res[0].k != "nil" && !refused) {
+					bad = append(bad, "the option can return a non-nil error / no value for an argument that is not known to be negative")
 				}
 				var sets []c11Ev
 				for _, ev := range lo.st.ev {
@@ -453,8 +457,10 @@ func c11A2Options(r *core.R) {
 					}
 				}
 				switch {
+				case len(sets) == 0 && refused:
+					nRefused++
 				case len(sets) != 1:
-					bad = append(bad, "on some path the option assigns "+strconv.Itoa(len(sets))+" fields of core.Options; it must set exactly the field "+name)
+					bad = append(bad, "on some path (not one that decided the argument negative) the option assigns "+strconv.Itoa(len(sets))+" fields of core.Options; it must set exactly the field "+name+" for every value of its argument, the zero value included")
 				case sets[0].lhs.obj.Name() != name:
 					pos = sets[0].node.Pos()
 					bad = append(bad, "`"+src(r.P.Fset, sets[0].node)+"`: the public option "+name+" sets core.Options."+sets[0].lhs.obj.Name()+" instead of the same-named field, so the documented "+name+" behaviour is not switched by it")
@@ -475,7 +481,7 @@ func c11A2Options(r *core.R) {
 		case nSet == 0:
 			r.Bad(c, pos, "option %s never sets core.Options.%s", name, name)
 		default:
-			r.OK(c, pos, "on every path the returned function sets core.Options.%s (and nothing else) from the constructor's argument and returns nil", name)
+			r.OK(c, pos, "on every path the returned function sets core.Options.%s (and nothing else) from the constructor's argument and returns nil (%d paths that decided the argument negative refuse it)", name, nRefused)
 		}
 	}
 	for _, name := range []string{"ChildFilter", "IgnoreInconsistency", "IgnoreMissingChildren", "Threshold"} {
